@@ -8,7 +8,9 @@ import (
 	"math/big"
 	"os"
 	"path/filepath"
+	"sort"
 	"strconv"
+	"strings"
 
 	"github.com/consensys/gnark-crypto/ecc"
 	"github.com/consensys/gnark-crypto/ecc/bn254/fr"
@@ -47,6 +49,25 @@ func (c *C12) Plan(tier string) engine.Plan {
 		return engine.Plan{Runs: 400, Workers: 6, BudgetSec: 1500, ShrinkSec: 30}
 	}
 	return engine.Plan{Runs: 400, Workers: 6, BudgetSec: 70, ShrinkSec: 20}
+}
+
+// differ reports "independently produced constraint systems are not byte-identical". One class
+// for every pairing: when compilation is nondeterministic, which pair differs changes from run
+// to run, so the violation is flagged uncontrolled (its replay re-runs the configuration and
+// reproduces the class, not the same two hashes; DESIGN 6.C12).
+func differ(key, what string, hashes map[string]string) *engine.Violation {
+	ks := make([]string, 0, len(hashes))
+	for k := range hashes {
+		ks = append(ks, k)
+	}
+	sort.Strings(ks)
+	var sb strings.Builder
+	for _, k := range ks {
+		fmt.Fprintf(&sb, " %s=%s", k, hashes[k][:12])
+	}
+	v := engine.Violatef("C12/constraint-systems-differ", "%s: %s;%s", key, what, sb.String())
+	v.Uncontrolled = true
+	return v
 }
 
 func csHash(cs constraint.ConstraintSystem) string {
@@ -149,14 +170,14 @@ func (c *C12) Run(x *engine.Ctx) *engine.Violation {
 			cliRef = h
 		}
 		if h != cliRef {
-			return engine.Violatef("C12/constraint-system-differs-between-processes", "%s: two `gnark-mbu r1cs` processes wrote different systems (%s vs %s); all: %v", key, h[:16], cliRef[:16], hashes)
+			return differ(key, "two `gnark-mbu r1cs` processes wrote different systems", hashes)
 		}
 	}
 	if cliRef != ref {
-		return engine.Violatef("C12/constraint-system-differs-between-cli-and-library", "%s: `gnark-mbu r1cs` wrote %s, BuildR1CS in the harness process %s", key, cliRef[:16], ref[:16])
+		return differ(key, "`gnark-mbu r1cs` and BuildR1CS in the harness process disagree", hashes)
 	}
 	if hashes["C/library-r1cs#1"] != ref {
-		return engine.Violatef("C12/constraint-system-differs-between-compilations", "%s: two compilations in one process differ (%s vs %s)", key, hashes["C/library-r1cs#1"][:16], ref[:16])
+		return differ(key, "two compilations in one process differ", hashes)
 	}
 	// node A: setup path; node B: import path with A's keys (cost: one Groth16 setup)
 	if depth <= 10 || t.Chance(1, 3) {
@@ -166,7 +187,7 @@ func (c *C12) Run(x *engine.Ctx) *engine.Violation {
 		}
 		note("A/setup", csHash(a.PS.ConstraintSystem))
 		if hashes["A/setup"] != ref {
-			return engine.Violatef("C12/constraint-system-differs-between-paths", "%s: setup path %s, r1cs path %s", key, hashes["A/setup"][:16], ref[:16])
+			return differ(key, "the setup path and the r1cs path disagree", hashes)
 		}
 		pkPath, vkPath := filepath.Join(dir, "pk"), filepath.Join(dir, "vk")
 		writeKey := func(p string, w func(*os.File) error) {
@@ -192,7 +213,7 @@ func (c *C12) Run(x *engine.Ctx) *engine.Violation {
 		}
 		note("B/import", csHash(bps.ConstraintSystem))
 		if hashes["B/import"] != ref {
-			return engine.Violatef("C12/constraint-system-differs-between-paths", "%s: import path %s, r1cs path %s", key, hashes["B/import"][:16], ref[:16])
+			return differ(key, "the import path and the r1cs path disagree", hashes)
 		}
 		if bps.TreeDepth != uint32(depth) || bps.BatchSize != uint32(batch) {
 			return engine.Violatef("C12/import-path-swaps-dimensions", "%s: imported system reports depth %d batch %d", key, bps.TreeDepth, bps.BatchSize)
